@@ -8,8 +8,7 @@ import random
 from vlib import core, store
 
 
-def judge(stream: list[dict], batch_size: int, flt: dict | None) -> tuple[str, dict | None, dict]:
-    info: dict = {}
+def _model(stream: list[dict]) -> tuple[dict, dict]:
     model = store.model_first_wins(stream)
     kids: dict[str, set] = {}
     for s in model.values():
@@ -18,64 +17,90 @@ def judge(stream: list[dict], batch_size: int, flt: dict | None) -> tuple[str, d
     by: dict[str, dict[str, dict[str, dict]]] = {}
     for s in model.values():
         by.setdefault(s["job_name"], {}).setdefault(s["job_id"], {})[s["event_id"]] = s
-    if flt is not None:
-        want = {n: {j: by[n][j] for j in ids if j in by.get(n, {})} for n, ids in flt.items()}
-        want = {n: v for n, v in want.items() if v}
-    else:
-        want = by
+    return by, kids
+
+
+def _want(by: dict, flt: dict | None) -> dict:
+    if flt is None:
+        return by
+    want = {n: {j: by[n][j] for j in ids if j in by.get(n, {})} for n, ids in flt.items()}
+    return {n: v for n, v in want.items() if v}
+
+
+def _check_stream(got: list, want: dict, kids: dict, info: dict) -> tuple[str, dict | None]:
+    """One streamed answer against what the store holds under the filter."""
+    names = [n for n, _ in got]
+    if len(set(names)) != len(names):
+        return "violated:workflow-name-yielded-twice", {"names": names}
+    seen_jobs: dict[str, str] = {}
+    spans_seen = 0
+    for name, traces in got:
+        for tr in traces:
+            if not tr:
+                return "violated:empty-trace-group", {"name": name}
+            jids = {e["job_id"] for e in tr}
+            if len(jids) != 1:
+                return "violated:trace-group-mixes-traces", {"name": name, "ids": sorted(jids)}
+            jid = next(iter(jids))
+            if (name, jid) in seen_jobs:
+                return "violated:trace-yielded-twice", {"name": name, "job_id": jid}
+            seen_jobs[(name, jid)] = name
+            exp = want.get(name, {}).get(jid)
+            if exp is None:
+                return "violated:trace-under-wrong-name-or-unselected", {
+                    "name": name, "job_id": jid}
+            ids = [e["event_id"] for e in tr]
+            if sorted(ids) != sorted(exp):
+                return ("violated:span-dropped" if set(exp) - set(ids) else
+                        "violated:span-duplicated-or-foreign"), {
+                    "name": name, "job_id": jid, "got": sorted(ids), "want": sorted(exp)}
+            for e in tr:
+                spans_seen += 1
+                w = exp[e["event_id"]]
+                for f in store.FIELDS:
+                    if e[f] != w[f]:
+                        return "violated:field-changed", {"event": e, "field": f, "want": w[f]}
+                if sorted(e["child_event_ids"] or []) != sorted(kids.get(e["event_id"], set())):
+                    return "violated:child-links-wrong", {
+                        "event_id": e["event_id"], "got": sorted(e["child_event_ids"] or []),
+                        "want": sorted(kids.get(e["event_id"], set()))}
+    missing = [(n, j) for n, js in want.items() for j in js if (n, j) not in seen_jobs]
+    if missing:
+        return "violated:trace-not-streamed", {"missing": missing[:5]}
+    info["traces"] = info.get("traces", 0) + len(seen_jobs)
+    info["spans"] = info.get("spans", 0) + spans_seen
+    info["names"] = len(names)
+    return "held", None
+
+
+def judge(stream: list[dict], batch_size: int, flt: dict | None) -> tuple[str, dict | None, dict]:
+    return judge_many(stream, batch_size, [flt])
+
+
+def judge_many(stream: list[dict], batch_size: int, filters: list[dict | None]
+               ) -> tuple[str, dict | None, dict]:
+    """Ingest once, then stream the SAME holder once per filter, in the given order; every
+    answer is judged on its own (nothing of an earlier answer may show in a later one)."""
+    info: dict = {}
+    by, kids = _model(stream)
     holder = None
     try:
         holder = store.new_holder("sqlite:///:memory:", batch_size)
         log = store.StatementLog(holder.engine)
         store.ingest(holder, stream)
-        got = store.stream_all(holder, {k: set(v) for k, v in flt.items()} if flt else None)
+        for i, flt in enumerate(filters):
+            got = store.stream_all(holder, {k: set(v) for k, v in flt.items()} if flt else None)
+            v, d = _check_stream(got, _want(by, flt), kids, info)
+            if v != "held":
+                if i:
+                    v = "violated:stream-" + str(i + 1) + "-on-one-holder:" + v[9:]
+                return v, d, info
         info["selects"] = log.counts.get("SELECT NODES", 0)
     except Exception as exc:
         return f"violated:exception:{type(exc).__name__}", {"exc": repr(exc)[:300]}, info
     finally:
         if holder is not None:
             holder.engine.dispose()
-    names = [n for n, _ in got]
-    if len(set(names)) != len(names):
-        return "violated:workflow-name-yielded-twice", {"names": names}, info
-    seen_jobs: dict[str, str] = {}
-    spans_seen = 0
-    for name, traces in got:
-        for tr in traces:
-            if not tr:
-                return "violated:empty-trace-group", {"name": name}, info
-            jids = {e["job_id"] for e in tr}
-            if len(jids) != 1:
-                return "violated:trace-group-mixes-traces", {"name": name, "ids": sorted(jids)}, info
-            jid = next(iter(jids))
-            if (name, jid) in seen_jobs:
-                return "violated:trace-yielded-twice", {"name": name, "job_id": jid}, info
-            seen_jobs[(name, jid)] = name
-            exp = want.get(name, {}).get(jid)
-            if exp is None:
-                return "violated:trace-under-wrong-name-or-unselected", {
-                    "name": name, "job_id": jid}, info
-            ids = [e["event_id"] for e in tr]
-            if sorted(ids) != sorted(exp):
-                return ("violated:span-dropped" if set(exp) - set(ids) else
-                        "violated:span-duplicated-or-foreign"), {
-                    "name": name, "job_id": jid, "got": sorted(ids), "want": sorted(exp)}, info
-            for e in tr:
-                spans_seen += 1
-                w = exp[e["event_id"]]
-                for f in store.FIELDS:
-                    if e[f] != w[f]:
-                        return "violated:field-changed", {"event": e, "field": f, "want": w[f]}, info
-                if sorted(e["child_event_ids"] or []) != sorted(kids.get(e["event_id"], set())):
-                    return "violated:child-links-wrong", {
-                        "event_id": e["event_id"], "got": sorted(e["child_event_ids"] or []),
-                        "want": sorted(kids.get(e["event_id"], set()))}, info
-    missing = [(n, j) for n, js in want.items() for j in js if (n, j) not in seen_jobs]
-    if missing:
-        return "violated:trace-not-streamed", {"missing": missing[:5]}, info
-    info["traces"] = len(seen_jobs)
-    info["spans"] = spans_seen
-    info["names"] = len(names)
     return "held", None, info
 
 
@@ -253,8 +278,11 @@ def large_filter_case(rng: random.Random) -> tuple[list[dict], int, dict, dict]:
     k = rng.choice([501, 601, n - 1, n])
     ids = sorted(rng.sample([f"big-t{i:04d}" for i in range(n)], min(k, n)))
     flt = {"big wf": ids, "other": ["other-t1"]}
+    # a second large selection for the same holder, neither inside nor around the first
+    ids2 = sorted(rng.sample([f"big-t{i:04d}" for i in range(n)], min(k, n) - 7))
     return spans, rng.choice([3, 7, 1000]), flt, {"order": "shuffled", "traces": n + 5,
-                                                  "names": 2, "large_filter": len(ids)}
+                                                  "names": 2, "large_filter": len(ids),
+                                                  "then": [{"big wf": ids2}, None]}
 
 
 def run_chunk(case: dict) -> dict:
@@ -278,7 +306,19 @@ def run_chunk(case: dict) -> dict:
         if flt is not None and eff is None:
             bump("all-empty filter treated as no filter")
         # entries with an empty id set select nothing under that name
-        v, d, info = judge(stream, b, eff)
+        follow: list = list(meta.get("then", []))
+        if not follow and idx % 5 == 2:
+            # the same holder asked again: another selection, then everything
+            byn: dict[str, list[str]] = {}
+            for sp in stream:
+                byn.setdefault(sp["job_name"], []).append(sp["job_id"])
+            alt = {nm: sorted(set(rng.sample(js, rng.randint(1, len(js)))))
+                   for nm, js in byn.items() if rng.random() < 0.7}
+            follow = [alt if any(alt.values()) else None, None]
+        if follow:
+            bump("holders_streamed_several_times")
+            bump("streams_on_a_reused_holder", len(follow))
+        v, d, info = judge_many(stream, b, [eff] + follow)
         n += 1
         bump(v.split(":")[0])
         bump("order:" + meta["order"])
@@ -294,7 +334,7 @@ def run_chunk(case: dict) -> dict:
                                        for s in stream], b, eff]))
         if v.startswith("violated") and len(fails) < 4:
             fails.append({"symptom": v[9:], "detail": d, "stream": stream, "batch_size": b,
-                          "filter": eff, "meta": meta})
+                          "filter": eff, "meta": dict(meta, then=follow)})
         if idx % 4 == 1 and len(stream) >= 3:
             cut = rng.randint(1, len(stream) - 1)
             v4, d4, info4 = judge_top_up(stream, b, cut)
@@ -392,7 +432,8 @@ def run_replay(case: dict) -> dict:
         v, d, info = judge_sequenced(case["stream"], case["batch_size"], case["filter"],
                                      case["meta"].get("collect_first", False))
         return {"status": "ok", "verdict": v, "detail": d}
-    v, d, info = judge(case["stream"], case["batch_size"], case["filter"])
+    v, d, info = judge_many(case["stream"], case["batch_size"],
+                            [case["filter"]] + list(case.get("meta", {}).get("then", [])))
     return {"status": "ok", "verdict": v, "detail": d}
 
 
